@@ -18,6 +18,17 @@ def run(chk):
     chk.assumptions += ["queries not yet modelled (relation_with(generator), relation_with(congruence), affine_dimension, frequency, contains_integer_point) are executed but not judged; listed in coverage.unmodelled",
                         "the state of an object is read from a copy (copy construction is itself judged: the copy must denote the reference value)"]
     chk.prove(polycheck.BASE_COQ)
+    if chk.replay:
+        import json as _json
+        lines = _json.load(open(chk.replay)).get("case", [])
+        out, byid = polycheck.run_cases(chk, lines, "replay", lambda k, l: True)
+        chk.count(len(lines), key="replay", sample=" ; ".join(lines))
+        chk.nontrivial.add("replay2")
+        for f in out["fails"]:
+            chk.failure({"site": polycheck.op_of_line(f.line), "kind": f.kind, "detail": f.detail}, {"case": lines, "step": f.step, "line": f.line, "judge": f.detail})
+        for (case, line, how) in out["crashes"]:
+            chk.failure({"site": polycheck.op_of_line(line), "kind": "crash", "detail": how}, {"case": case, "line": line, "how": how})
+        return
     ncase = 220 if chk.quick else 5000
     lines = gen_poly.make_cases(chk.seed * 104729 + 3, ncase, maxdim=3, nobj=3, steps=8, pq=0.38, pobs=0.27)
     lines += gen_poly.make_cases(chk.seed * 31 + 5, ncase // 5, maxdim=2, nobj=4, steps=12, pq=0.3, pobs=0.35, start=ncase)
